@@ -26,7 +26,9 @@ Points(class) ==
 SoftBases == << <<0>>, <<1, 2>>, <<-3, 0, 3>>, <<2, 2, 2, 2>>, <<-1, 4, 0, 2, -2>>, <<5, -5, 1, 0, 3, -1>>,
                 <<3, -2, 1, 0, -1, 2, 4, -4>>, <<0, 1, -1, 2, -2, 3, -3, 4, -4, 5, -5, 6>>,
                 \* a NEGLIGIBLE last class (its probability is far below one ulp of the others' sum): still non-negative
-                <<10, 10, 10, 10, 10, 10, 10, 10, 10, 10, -100>>, <<3, 1, 4, 1, 5, -60>>, <<2, 2, 2, -90>>, <<1, 0, 2, 1, 0, 2, 1, -70>> >>
+                <<10, 10, 10, 10, 10, 10, 10, 10, 10, 10, -100>>, <<3, 1, 4, 1, 5, -60>>, <<2, 2, 2, -90>>, <<1, 0, 2, 1, 0, 2, 1, -70>>,
+                \* SATURATED: one logit dominates, the sum of the exponentials is exactly 1 (8 elements: 2 x 2 x 2 as a 3-D tensor)
+                <<50, 0, 1, 2, 3, 1, 0, 2>>, <<0, 0, 0, 90>> >>
 SoftShifts == {0, 8, -1024, 4096}
 Huge == << [k |-> "max", s |-> 1], [k |-> "max", s |-> -1], [k |-> "pow2", s |-> 1, e |-> 100], [k |-> "pow2", s |-> -1, e |-> 100],
            [k |-> "k8", v |-> 8], [k |-> "zero", s |-> 1] >>
